@@ -337,6 +337,16 @@ func funcServes(fc *contract.Func, tags map[string]bool) bool {
 			return true
 		}
 	}
+	for _, r := range fc.Regions {
+		if chk(r.Asserts) || chk(r.Assumes) {
+			return true
+		}
+		for _, l := range r.Loops {
+			if chk(l.Invariants) || chk(l.Entries) {
+				return true
+			}
+		}
+	}
 	return false
 }
 
